@@ -150,6 +150,7 @@ func (c *AbsC2) UnmarshalJSON(b []byte) error {
 
 // Post is the abstract committed state after a step.
 type Post struct {
+	None bool              `json:"none"`
 	H    uint64            `json:"h"`
 	Pool uint64            `json:"pool"`
 	Fnd  struct{ P, M string } `json:"fnd"`
